@@ -361,7 +361,6 @@ theorem redeemEth_eff (c : Cfg) (s : St) (pre : Nat) (o : Addr) (n : Name) (a : 
     Eff c s (.sub .redeem o n a) (redeemEth c s pre o n a).st (redeemEth c s pre o n a).ev := by
   unfold redeemEth
   split; · exact .noop
-  split; · exact .noop
   split
   · exact .noop
   · rename_i b1 hb1
@@ -380,7 +379,6 @@ theorem redeemEth_eff (c : Cfg) (s : St) (pre : Nat) (o : Addr) (n : Name) (a : 
 theorem redeemErc_eff (c : Cfg) (s : St) (pre : Nat) (tt : Bool) (o : Addr) (n : Name) (a : Nat) :
     Eff c s (.sub .redeemERC o n a) (redeemErc c s pre tt o n a).st (redeemErc c s pre tt o n a).ev := by
   unfold redeemErc
-  split; · exact .noop
   split; · exact .noop
   split
   · exact .noop
@@ -465,41 +463,41 @@ inductive EffEnd (s : St) (n : Name) : St → Prop
   | toFailed (t : Tracker) (hget : alookup n s.ongoing = some t) (hst : t.state = .failed) :
       EffEnd s n { s with failed := upsert s.failed n t.clean, ongoing := aerase s.ongoing n }
 
-theorem transition_cases (je : Bool) (t : Tracker) :
-    transition je t = .none ∨
-    (transition je t = .panic ∧ t.state = .finalized) ∨
-    (transition je t = .toPassed ∧ t.state = .released) ∨
-    (transition je t = .toFailed ∧ t.state = .failed) ∨
-    (∃ st', transition je t = .save { t with state := st' } ∧
+theorem transition_cases (t : Tracker) :
+    transition t = .none ∨
+    (transition t = .panic ∧ t.state = .finalized) ∨
+    (transition t = .toPassed ∧ t.state = .released) ∨
+    (transition t = .toFailed ∧ t.state = .failed) ∨
+    (∃ st', transition t = .save { t with state := st' } ∧
       (t.state ≠ .released ∧ t.state ≠ .failed) ∧
       (st' ≠ .released ∧ st' ≠ .failed ∧ st' ≠ .broadcastSuccess) ∧
       (st' = .finalized → t.state = .busyFinalizing ∧ t.finalized = true)) := by
   unfold transition
-  cases hl : t.typ.isLock <;> cases hs : t.state <;> cases je <;> simp
+  cases hl : t.typ.isLock <;> cases hs : t.state <;> simp
   all_goals first
     | (split <;> simp_all)
     | skip
 
-theorem endOne_eff {s s' : St} {je : List Name} {n : Name} (h : endOne s je n = some s') : EffEnd s n s' := by
+theorem endOne_eff {s s' : St} {n : Name} (h : endOne s n = some s') : EffEnd s n s' := by
   unfold endOne at h
   split at h
   · cases h
   · rename_i t hget
-    rcases transition_cases (je.contains n) t with h0 | ⟨h0, _⟩ | ⟨h0, hst⟩ | ⟨h0, hst⟩ | ⟨st', h0, h1, h2, h3⟩
+    rcases transition_cases t with h0 | ⟨h0, _⟩ | ⟨h0, hst⟩ | ⟨h0, hst⟩ | ⟨st', h0, h1, h2, h3⟩
     · rw [h0] at h; cases h; exact .none
     · rw [h0] at h; cases h
     · rw [h0] at h; cases h; exact .toPassed t hget hst
     · rw [h0] at h; cases h; exact .toFailed t hget hst
     · rw [h0] at h; cases h; exact .save t st' hget h1 h2 h3
 
-theorem step_eff (c : Cfg) (s : St) (op : Op) (hop : ∀ ns je, op ≠ .endBlock ns je) :
+theorem step_eff (c : Cfg) (s : St) (op : Op) (hop : ∀ ns, op ≠ .endBlock ns) :
     Eff c s op.info (step c s op).st (step c s op).ev := by
   cases op with
   | lock erc pre l n a => cases erc <;> simp only [step, Op.info, subTyp]; exact lockEth_eff ..; exact lockErc_eff ..
   | redeem erc pre tt o n a => cases erc <;> simp only [step, Op.info, subTyp]; exact redeemEth_eff ..; exact redeemErc_eff ..
   | report n l v i ok => exact report_eff ..
   | send f t cur a => exact send_eff ..
-  | endBlock ns je => exact absurd rfl (hop ns je)
+  | endBlock ns => exact absurd rfl (hop ns)
 
 end OLP.Eth
 
@@ -679,12 +677,12 @@ theorem wf_effEnd {c : Cfg} {s s' : St} {n : Name} (wf : St.WF c s) (h : EffEnd 
     · cases hm
     · exact wf m u hm
 
-theorem wf_endBlock {c : Cfg} {je : List Name} (ns : List Name) {s s' : St} (wf : St.WF c s)
-    (h : endBlock s je ns = some s') : St.WF c s' := by
+theorem wf_endNames {c : Cfg} (ns : List Name) {s s' : St} (wf : St.WF c s)
+    (h : endNames s ns = some s') : St.WF c s' := by
   induction ns generalizing s with
-  | nil => simp [endBlock] at h; exact h ▸ wf
+  | nil => simp [endNames] at h; exact h ▸ wf
   | cons n ns ih =>
-    unfold endBlock at h
+    unfold endNames at h
     split at h
     · cases h
     · rename_i s1 h1
@@ -695,13 +693,13 @@ theorem wf_empty (c : Cfg) : St.WF c St.empty := by
 
 /-- every step keeps the state well formed (a panicking or rejected step keeps the state) -/
 theorem wf_step {c : Cfg} (hc : c.WF) {s : St} (wf : St.WF c s) (op : Op) : St.WF c (step c s op).st := by
-  by_cases hop : ∃ ns je, op = .endBlock ns je
-  · obtain ⟨ns, je, rfl⟩ := hop
+  by_cases hop : ∃ ns, op = .endBlock ns
+  · obtain ⟨ns, rfl⟩ := hop
     simp only [step]
     split
     · exact wf
-    · rename_i s' h; exact wf_endBlock ns wf h
-  · exact wf_eff hc wf (step_eff c s op (fun ns je e => hop ⟨ns, je, e⟩))
+    · rename_i s' h; exact wf_endNames _ wf h
+  · exact wf_eff hc wf (step_eff c s op (fun ns e => hop ⟨ns, e⟩))
 
 end OLP.Eth
 
@@ -1067,12 +1065,12 @@ theorem invM_effEnd {c : Cfg} {s s' : St} {n : Name} {evs : List Event}
         · exact Or.inl h1
         · exact Or.inr ⟨u, by simp only []; rw [alookup_aerase]; simp [e, h1], h2⟩
 
-theorem invM_endBlock {c : Cfg} {je : List Name} (ns : List Name) {s s' : St} {evs : List Event}
-    (I : InvM c s evs) (h : endBlock s je ns = some s') : InvM c s' evs := by
+theorem invM_endNames {c : Cfg} (ns : List Name) {s s' : St} {evs : List Event}
+    (I : InvM c s evs) (h : endNames s ns = some s') : InvM c s' evs := by
   induction ns generalizing s with
-  | nil => simp [endBlock] at h; exact h ▸ I
+  | nil => simp [endNames] at h; exact h ▸ I
   | cons n ns ih =>
-    unfold endBlock at h
+    unfold endNames at h
     split at h
     · cases h
     · rename_i s1 h1
@@ -1080,13 +1078,13 @@ theorem invM_endBlock {c : Cfg} {je : List Name} (ns : List Name) {s s' : St} {e
 
 theorem invM_step {c : Cfg} (hc : c.WF) {s : St} {evs : List Event} (I : InvM c s evs) (op : Op) :
     InvM c (step c s op).st (evs ++ (step c s op).ev) := by
-  by_cases hop : ∃ ns je, op = .endBlock ns je
-  · obtain ⟨ns, je, rfl⟩ := hop
+  by_cases hop : ∃ ns, op = .endBlock ns
+  · obtain ⟨ns, rfl⟩ := hop
     simp only [step]
     split
     · simpa using I
-    · rename_i s' h; simpa using invM_endBlock ns I h
-  · have he := step_eff c s op (fun ns je e => hop ⟨ns, je, e⟩)
+    · rename_i s' h; simpa using invM_endNames _ I h
+  · have he := step_eff c s op (fun ns e => hop ⟨ns, e⟩)
     exact invM_eff2 I (wf_eff hc I.wf he) (eff2_of_eff hc I.wf he)
 
 theorem invM_empty (c : Cfg) : InvM c St.empty [] :=
@@ -1216,25 +1214,25 @@ theorem invD_effEnd {c : Cfg} {s s' : St} {n : Name} (I : InvD c s) (h : EffEnd 
       · simp only [e, decide_false, Bool.false_or]
         exact I.dPF m hm
 
-theorem invD_endBlock {c : Cfg} {je : List Name} (ns : List Name) {s s' : St}
-    (I : InvD c s) (h : endBlock s je ns = some s') : InvD c s' := by
+theorem invD_endNames {c : Cfg} (ns : List Name) {s s' : St}
+    (I : InvD c s) (h : endNames s ns = some s') : InvD c s' := by
   induction ns generalizing s with
-  | nil => simp [endBlock] at h; exact h ▸ I
+  | nil => simp [endNames] at h; exact h ▸ I
   | cons n ns ih =>
-    unfold endBlock at h
+    unfold endNames at h
     split at h
     · cases h
     · rename_i s1 h1
       exact ih (invD_effEnd I (endOne_eff h1)) h
 
 theorem invD_step {c : Cfg} (hc : c.WF) {s : St} (I : InvD c s) (op : Op) : InvD c (step c s op).st := by
-  by_cases hop : ∃ ns je, op = .endBlock ns je
-  · obtain ⟨ns, je, rfl⟩ := hop
+  by_cases hop : ∃ ns, op = .endBlock ns
+  · obtain ⟨ns, rfl⟩ := hop
     simp only [step]
     split
     · exact I
-    · rename_i s' h; exact invD_endBlock ns I h
-  · have he := step_eff c s op (fun ns je e => hop ⟨ns, je, e⟩)
+    · rename_i s' h; exact invD_endNames _ I h
+  · have he := step_eff c s op (fun ns e => hop ⟨ns, e⟩)
     exact invD_eff2 I (wf_eff hc I.wf he) (eff2_of_eff hc I.wf he)
 
 theorem invD_empty (c : Cfg) : InvD c St.empty :=
@@ -1397,12 +1395,12 @@ theorem invR_effEnd {c : Cfg} {s s' : St} {n : Name} {evs : List Event}
       · simpa [St.knows, has_aerase, has_upsert, e] using hk
       · simp only [] at hu; rw [alookup_aerase] at hu; simp [e] at hu; exact hp u hu
 
-theorem invR_endBlock {c : Cfg} {je : List Name} (ns : List Name) {s s' : St} {evs : List Event}
-    (I : InvR c s evs) (h : endBlock s je ns = some s') : InvR c s' evs := by
+theorem invR_endNames {c : Cfg} (ns : List Name) {s s' : St} {evs : List Event}
+    (I : InvR c s evs) (h : endNames s ns = some s') : InvR c s' evs := by
   induction ns generalizing s with
-  | nil => simp [endBlock] at h; exact h ▸ I
+  | nil => simp [endNames] at h; exact h ▸ I
   | cons n ns ih =>
-    unfold endBlock at h
+    unfold endNames at h
     split at h
     · cases h
     · rename_i s1 h1
@@ -1410,13 +1408,13 @@ theorem invR_endBlock {c : Cfg} {je : List Name} (ns : List Name) {s s' : St} {e
 
 theorem invR_step {c : Cfg} (hc : c.WF) {s : St} {evs : List Event} (I : InvR c s evs) (op : Op) :
     InvR c (step c s op).st (evs ++ (step c s op).ev) := by
-  by_cases hop : ∃ ns je, op = .endBlock ns je
-  · obtain ⟨ns, je, rfl⟩ := hop
+  by_cases hop : ∃ ns, op = .endBlock ns
+  · obtain ⟨ns, rfl⟩ := hop
     simp only [step]
     split
     · simpa using I
-    · rename_i s' h; simpa using invR_endBlock ns I h
-  · have he := step_eff c s op (fun ns je e => hop ⟨ns, je, e⟩)
+    · rename_i s' h; simpa using invR_endNames _ I h
+  · have he := step_eff c s op (fun ns e => hop ⟨ns, e⟩)
     exact invR_eff2 I (wf_eff hc I.wf he) (eff2_of_eff hc I.wf he)
 
 theorem run_invR {c : Cfg} (hc : c.WF) (ops : List Op) : ∀ (s : St) (evs : List Event),
@@ -1602,12 +1600,12 @@ theorem invS_effEnd {c : Cfg} {s s' : St} {n : Name} (I : InvS c s) (h : EffEnd 
     · cases hu
     · exact I.own m u hu
 
-theorem invS_endBlock {c : Cfg} {je : List Name} (ns : List Name) {s s' : St}
-    (I : InvS c s) (h : endBlock s je ns = some s') : InvS c s' := by
+theorem invS_endNames {c : Cfg} (ns : List Name) {s s' : St}
+    (I : InvS c s) (h : endNames s ns = some s') : InvS c s' := by
   induction ns generalizing s with
-  | nil => simp [endBlock] at h; exact h ▸ I
+  | nil => simp [endNames] at h; exact h ▸ I
   | cons n ns ih =>
-    unfold endBlock at h
+    unfold endNames at h
     split at h
     · cases h
     · rename_i s1 h1
@@ -1615,13 +1613,13 @@ theorem invS_endBlock {c : Cfg} {je : List Name} (ns : List Name) {s s' : St}
 
 theorem invS_step {c : Cfg} (hc : c.WF) {s : St} (I : InvS c s) (op : Op) (hav : op.avoids c.supply = true) :
     InvS c (step c s op).st := by
-  by_cases hop : ∃ ns je, op = .endBlock ns je
-  · obtain ⟨ns, je, rfl⟩ := hop
+  by_cases hop : ∃ ns, op = .endBlock ns
+  · obtain ⟨ns, rfl⟩ := hop
     simp only [step]
     split
     · exact I
-    · rename_i s' h; exact invS_endBlock ns I h
-  · have he := step_eff c s op (fun ns je e => hop ⟨ns, je, e⟩)
+    · rename_i s' h; exact invS_endNames _ I h
+  · have he := step_eff c s op (fun ns e => hop ⟨ns, e⟩)
     exact invS_eff2 I (wf_eff hc I.wf he) (eff2_of_eff hc I.wf he) hav
 
 theorem run_invS {c : Cfg} (hc : c.WF) (ops : List Op) : ∀ (s : St),
@@ -1943,12 +1941,12 @@ theorem invH_effEnd {c : Cfg} {s s' : St} {n : Name} {done : List Op} {evs : Lis
       · cases hu
       · exact I.origin m u hu
 
-theorem invH_endBlock {c : Cfg} {je : List Name} (ns : List Name) {s s' : St} {done : List Op} {evs : List Event}
-    (I : InvH c s done evs) (h : endBlock s je ns = some s') : InvH c s' done evs := by
+theorem invH_endNames {c : Cfg} (ns : List Name) {s s' : St} {done : List Op} {evs : List Event}
+    (I : InvH c s done evs) (h : endNames s ns = some s') : InvH c s' done evs := by
   induction ns generalizing s with
-  | nil => simp [endBlock] at h; exact h ▸ I
+  | nil => simp [endNames] at h; exact h ▸ I
   | cons n ns ih =>
-    unfold endBlock at h
+    unfold endNames at h
     split at h
     · cases h
     · rename_i s1 h1
@@ -1967,13 +1965,13 @@ theorem InvH.mono {c : Cfg} {s : St} {done done' : List Op} {evs : List Event} (
 theorem invH_step {c : Cfg} (hc : c.WF) {s : St} {done : List Op} {evs : List Event} (I : InvH c s done evs)
     (op : Op) : InvH c (step c s op).st (done ++ [op]) (evs ++ (step c s op).ev) := by
   have hs : ∀ o ∈ done, o ∈ done ++ [op] := fun o ho => by simp [ho]
-  by_cases hop : ∃ ns je, op = .endBlock ns je
-  · obtain ⟨ns, je, rfl⟩ := hop
+  by_cases hop : ∃ ns, op = .endBlock ns
+  · obtain ⟨ns, rfl⟩ := hop
     simp only [step]
     split
     · simpa using I.mono hs
-    · rename_i s' h; simpa using invH_endBlock ns (I.mono hs) h
-  · have he := step_eff c s op (fun ns je e => hop ⟨ns, je, e⟩)
+    · rename_i s' h; simpa using invH_endNames _ (I.mono hs) h
+  · have he := step_eff c s op (fun ns e => hop ⟨ns, e⟩)
     refine invH_eff2 hc I (wf_eff hc I.wf he) (eff2_of_eff hc I.wf he) hs ⟨op, by simp, rfl⟩ ?_
     intro n l v i ok hi
     cases op <;> simp [Op.info] at hi
@@ -1999,13 +1997,13 @@ open OLP
 
 /-! ## block end -/
 
-theorem endOne_some {c : Cfg} {s : St} (wf : St.WF c s) (je : List Name) {n : Name} (hn : has s.ongoing n = true) :
-    ∃ s', endOne s je n = some s' := by
+theorem endOne_some {c : Cfg} {s : St} (wf : St.WF c s) {n : Name} (hn : has s.ongoing n = true) :
+    ∃ s', endOne s n = some s' := by
   obtain ⟨t, ht⟩ := (has_eq_true_iff _ _).mp hn
   unfold endOne
   rw [ht]
   simp only
-  rcases transition_cases (je.contains n) t with h0 | ⟨_, hst⟩ | ⟨h0, _⟩ | ⟨h0, _⟩ | ⟨st', h0, _⟩
+  rcases transition_cases t with h0 | ⟨_, hst⟩ | ⟨h0, _⟩ | ⟨h0, _⟩ | ⟨st', h0, _⟩
   · rw [h0]; exact ⟨_, rfl⟩
   · exact absurd hst (wf n t ht).nfin
   · rw [h0]; exact ⟨_, rfl⟩
@@ -2020,28 +2018,28 @@ theorem effEnd_has_other {s s' : St} {n m : Name} (h : EffEnd s n s') (e : m ≠
   | toPassed t _ _ => simp only []; rw [has_aerase]; simp [e, hm]
   | toFailed t _ _ => simp only []; rw [has_aerase]; simp [e, hm]
 
-theorem endBlock_some {c : Cfg} (je : List Name) (ns : List Name) : ∀ {s : St}, St.WF c s → ns.Nodup →
-    (∀ n ∈ ns, has s.ongoing n = true) → ∃ s', endBlock s je ns = some s' := by
+theorem endNames_some {c : Cfg} (ns : List Name) : ∀ {s : St}, St.WF c s → ns.Nodup →
+    (∀ n ∈ ns, has s.ongoing n = true) → ∃ s', endNames s ns = some s' := by
   induction ns with
   | nil => intro s _ _ _; exact ⟨s, rfl⟩
   | cons n ns ih =>
     intro s wf hnd hin
-    obtain ⟨s1, h1⟩ := endOne_some wf je (hin n (by simp))
+    obtain ⟨s1, h1⟩ := endOne_some wf (hin n (by simp))
     have hnd' := List.nodup_cons.mp hnd
     have e1 := endOne_eff h1
     obtain ⟨s2, h2⟩ := ih (wf_effEnd wf e1) hnd'.2
       (fun m hm => effEnd_has_other e1 (fun e => hnd'.1 (e ▸ hm)) (hin m (by simp [hm])))
-    exact ⟨s2, by simp [endBlock, h1, h2]⟩
+    exact ⟨s2, by simp [endNames, h1, h2]⟩
 
 theorem effEnd_bal {s s' : St} {n : Name} (h : EffEnd s n s') : s'.bal = s.bal := by
   cases h <;> rfl
 
-theorem endBlock_bal {je : List Name} (ns : List Name) : ∀ {s s' : St}, endBlock s je ns = some s' → s'.bal = s.bal := by
+theorem endNames_bal (ns : List Name) : ∀ {s s' : St}, endNames s ns = some s' → s'.bal = s.bal := by
   induction ns with
-  | nil => intro s s' h; simp [endBlock] at h; rw [h]
+  | nil => intro s s' h; simp [endNames] at h; rw [h]
   | cons n ns ih =>
     intro s s' h
-    unfold endBlock at h
+    unfold endNames at h
     split at h
     · cases h
     · rename_i s1 h1
@@ -2056,7 +2054,7 @@ theorem exCfg_wf : exCfg.WF := ⟨by decide⟩
 
 /-- account 1 locks 40 wei (external tx 7); the three witnesses report success naming account 1 -/
 def exHonest : List Op :=
-  [.lock false 0 1 7 40, .report 7 1 11 0 true, .report 7 1 12 1 true, .report 7 1 13 2 true, .endBlock [7] []]
+  [.lock false 0 1 7 40, .report 7 1 11 0 true, .report 7 1 12 1 true, .report 7 1 13 2 true, .endBlock [7]]
 
 /-- as above, but the report that crosses the threshold names account 2 (harmless since 0a509b2) -/
 def exLiar : List Op :=
@@ -2065,21 +2063,87 @@ def exLiar : List Op :=
 /-- an ERC20 lock (external tx 8, 30 tokens) is minted and archived; the resubmission is refused
     (before repair 9de5f06 it was accepted and minted again) -/
 def exDoubleMint : List Op :=
-  [.lock true 0 1 8 30, .report 8 1 11 0 true, .report 8 1 12 1 true, .report 8 1 13 2 true, .endBlock [8] [],
+  [.lock true 0 1 8 30, .report 8 1 11 0 true, .report 8 1 12 1 true, .report 8 1 13 2 true, .endBlock [8],
    .lock true 0 1 8 30, .report 8 1 11 0 true, .report 8 1 12 1 true, .report 8 1 13 2 true]
 
 /-- an ETH redeem after a mint: debit, two of three witnesses report failure, refund -/
 def exRefund : List Op :=
   exHonest ++ [.redeem false 0 false 1 9 25, .report 9 1 11 0 false, .report 9 1 12 1 false, .report 9 1 13 2 false,
-    .endBlock [9] []]
+    .endBlock [9]]
 
 /-- ETH and ERC20 locks are minted to account 1; an ETH redeem (external tx 9) fails and is archived
     in the failed store; an ERC20 redeem carrying the same external transaction is refused (before
     repair efdfa81 runERC20Reddem did not consult the failed store and accepted it) -/
 def exTwoRecords : List Op :=
   [.lock false 0 1 7 40, .report 7 1 11 0 true, .report 7 1 12 1 true, .report 7 1 13 2 true,
-   .lock true 0 1 8 30, .report 8 1 11 0 true, .report 8 1 12 1 true, .report 8 1 13 2 true, .endBlock [7, 8] [],
-   .redeem false 0 false 1 9 5, .report 9 1 11 0 false, .report 9 1 12 1 false, .report 9 1 13 2 false, .endBlock [9] [],
+   .lock true 0 1 8 30, .report 8 1 11 0 true, .report 8 1 12 1 true, .report 8 1 13 2 true, .endBlock [7, 8],
+   .redeem false 0 false 1 9 5, .report 9 1 11 0 false, .report 9 1 12 1 false, .report 9 1 13 2 false, .endBlock [9],
    .redeem true 0 false 1 9 5]
+
+end OLP.Eth
+
+namespace OLP.Eth
+open OLP
+
+/-! ## after the block end no visited tracker that was decided is left in the ongoing store -/
+
+def Tracker.decided (t : Tracker) : Prop := t.state = .released ∨ t.state = .failed
+
+theorem transition_released {t : Tracker} (h : t.state = .released) : transition t = .toPassed := by
+  unfold transition; rw [h]
+
+theorem transition_failed {t : Tracker} (h : t.state = .failed) : transition t = .toFailed := by
+  unfold transition; rw [h]
+
+theorem endOne_decided {c : Cfg} {s s1 : St} {n : Name} (wf : St.WF c s) (h : endOne s n = some s1) :
+    ∀ m t, alookup m s1.ongoing = some t → t.decided → m ≠ n ∧ alookup m s.ongoing = some t := by
+  intro m t hm hd
+  unfold endOne at h
+  split at h
+  · cases h
+  · rename_i t0 hget
+    have hname := (wf n t0 hget).name
+    rcases transition_cases t0 with h0 | ⟨h0, _⟩ | ⟨h0, _⟩ | ⟨h0, _⟩ | ⟨st', h0, _, h2, _⟩
+    · rw [h0] at h; cases h
+      refine ⟨?_, hm⟩
+      intro e; subst e
+      rw [hget] at hm; cases hm
+      rcases hd with hd | hd
+      · rw [transition_released hd] at h0; cases h0
+      · rw [transition_failed hd] at h0; cases h0
+    · rw [h0] at h; cases h
+    · rw [h0] at h; cases h
+      simp only [] at hm; rw [alookup_aerase] at hm
+      split at hm
+      · cases hm
+      · rename_i e; exact ⟨e, hm⟩
+    · rw [h0] at h; cases h
+      simp only [] at hm; rw [alookup_aerase] at hm
+      split at hm
+      · cases hm
+      · rename_i e; exact ⟨e, hm⟩
+    · rw [h0] at h; cases h
+      simp only [setOngoing_ongoing] at hm
+      rw [show ({ t0 with state := st' } : Tracker).name = n from hname, alookup_upsert] at hm
+      split at hm
+      · cases hm
+        rcases hd with hd | hd
+        · exact absurd hd h2.1
+        · exact absurd hd h2.2.1
+      · rename_i e; exact ⟨e, hm⟩
+
+theorem endNames_decided {c : Cfg} (ns : List Name) : ∀ {s s' : St}, St.WF c s → endNames s ns = some s' →
+    ∀ m t, alookup m s'.ongoing = some t → t.decided → m ∉ ns ∧ alookup m s.ongoing = some t := by
+  induction ns with
+  | nil => intro s s' _ h m t hm _; simp [endNames] at h; subst h; exact ⟨by simp, hm⟩
+  | cons n ns ih =>
+    intro s s' wf h m t hm hd
+    unfold endNames at h
+    split at h
+    · cases h
+    · rename_i s1 h1
+      obtain ⟨h2, h3⟩ := ih (wf_effEnd wf (endOne_eff h1)) h m t hm hd
+      obtain ⟨h4, h5⟩ := endOne_decided wf h1 m t h3 hd
+      exact ⟨by simp [h2, h4], h5⟩
 
 end OLP.Eth
